@@ -748,6 +748,8 @@ fn known_ty(rng: &mut Rng) -> u16 { 32768 + 4 * rng.below(8000) as u16 + rng.bel
 
 #[path = "c15/gate.rs"]
 mod gate;
+#[path = "c15/eph.rs"]
+mod eph;
 
 fn run_peer(args: &Args) {
 	let mut rec = Rec::new(&args.out, "c15peer");
@@ -784,6 +786,10 @@ fn run_peer(args: &Args) {
 
 	// (0b) the Init gate: every wire message type as the first post-handshake message / right after Init, recording handlers
 	gate::gate_scenarios(&mut rec, &mut rng, &secp, if args.thorough { 12 } else { 2 });
+
+	// (0c) ephemeral keys: a fresh key per connection (differential against Model/EphKey + oracles), replay of a
+	// recorded initiator transcript on a fresh inbound connection must be dropped at act three
+	eph::eph_scenarios(&mut rec, &mut rng, &secp, if args.thorough { 300 } else { 30 });
 
 	// (1) two PeerManagers: identity delivery under fragmentation / coalescing / back-pressure
 	let (n_long, n_runs, n_small) = if args.thorough { (6000, 400, 300) } else { (1300, 60, 120) };
